@@ -795,6 +795,14 @@ def r41(ctx: Ctx) -> RuleReport:
         for f_ in local_callees(ctx, gi, depth=1):
             if f_.fq != gi.fq and f_.module.name == gi.module.name and any(isinstance(n, ast.Call) and isinstance(n.func, ast.Name) and n.func.id in _ch for n in walk_local(f_.node)):
                 uses = True
+        # ... or the colon is added in place:  ':' + role  where role is known not to start with one
+        for f_ in local_callees(ctx, gi, depth=1):
+            if f_.module.name != gi.module.name:
+                continue
+            for n in walk_local(f_.node):
+                if isinstance(n, ast.BinOp) and isinstance(n.op, ast.Add) and try_fold(n.left) == (True, ':') and isinstance(n.right, ast.Name):
+                    if (f"{n.right.id}.startswith(':')", False) in facts_ex(ctx, f_, n):
+                        uses = True
         for n in walk_local(gi.node):
             if isinstance(n, ast.Call) and norm(n.func) == 'map' and n.args and isinstance(n.args[0], ast.Name) and n.args[0].id in gi.module.functions \
                     and any(isinstance(x, ast.Call) and isinstance(x.func, ast.Name) and x.func.id in _ch for x in walk_local(gi.module.functions[n.args[0].id].node)):
